@@ -430,7 +430,7 @@ theorem findFe_run {f : Fmts} (hs : SortedKeys f) {want : List Str} {st en i : N
 
 /-! ### `_slice_val_to_idx` stays inside `0..n` -/
 
-theorem sliceIdx_le (n : Nat) (v : Option Int) (d : Nat) (hd : d ≤ n) : sliceIdx n v d ≤ n := by
+theorem sliceIdx_le_f17 (n : Nat) (v : Option Int) (d : Nat) (hd : d ≤ n) : sliceIdx n v d ≤ n := by
   unfold sliceIdx
   cases v with
   | none => exact hd
